@@ -531,7 +531,7 @@ pub fn profiles_for(property: &str, tier: &str) -> Vec<(&'static str, u64)> {
                 ]
             } else {
                 vec![
-                    ("sweep", nb * 3),
+                    ("sweep", nb * 4),
                     ("alias", 60_000),
                     ("flow", 40_000),
                     ("stream", 30_000),
